@@ -252,7 +252,7 @@ theorem loadRouter_ok (exits : List ExitD) (r : RouterD)
     (hn : (exits.map (·.uuid)).Nodup) (hx : exits.map (·.uuid) = (routerCatsD r).map (·.exitUuid)) :
     ∃ rc, loadRouter exits r = .ok rc ∧
       routerCats rc = (routerCatsD r).map (catImage exits) ∧
-      normRouter (renderRouter rc) = normRouter r ∧
+      renderRouter rc = shapeRouter r ∧
       routerCases rc = routerCasesD r := by
   cases r with
   | random cats rn =>
@@ -260,8 +260,7 @@ theorem loadRouter_ok (exits : List ExitD) (r : RouterD)
     simp only [routerCatsD] at hx
     refine ⟨.random rn (cats.map (catImage exits)), ?_, rfl, ?_, rfl⟩
     · simp [loadRouter, loadCategories_ok exits cats hv.1 hx]
-    · simp only [renderRouter, normRouter, catImage_render exits cats hn hx]
-      exact congrArg _ (dropFalsy_idem rn)
+    · simp only [renderRouter, shapeRouter, catImage_render exits cats hn hx]
   | switch op cases cats dflt wait rn =>
     simp only [validRouter, Bool.and_eq_true, decide_eq_true_eq] at hv
     obtain ⟨⟨⟨hvc, hnd⟩, hcases⟩, hwait⟩ := hv
@@ -282,7 +281,7 @@ theorem loadRouter_ok (exits : List ExitD) (r : RouterD)
             ++ (none : Option CatC).toList) = pre ++ [d] := by
           have := catImage_render exits (pre ++ [d]) hn hx
           simpa using this
-        simp only [renderRouter, hcats, normRouter, hrn]
+        simp only [renderRouter, hcats, shapeRouter]
         simp [catImage, hd]
     | some w =>
       cases w with
@@ -300,7 +299,7 @@ theorem loadRouter_ok (exits : List ExitD) (r : RouterD)
               ++ (none : Option CatC).toList) = pre ++ [d] := by
             have := catImage_render exits (pre ++ [d]) hn hx
             simpa using this
-          simp only [renderRouter, hcats, normRouter, hrn]
+          simp only [renderRouter, hcats, shapeRouter]
           simp [catImage, hd, hwait]
       | some t =>
         simp only [orderedRouter, Option.bind_some] at ho
@@ -326,7 +325,7 @@ theorem loadRouter_ok (exits : List ExitD) (r : RouterD)
             | mk secs tcu =>
               simp only at hs' hnr hwait
               subst hs'
-              simp only [renderRouter, hcats, normRouter, hrn]
+              simp only [renderRouter, hcats, shapeRouter]
               simp [catImage, hd, hwait.1, hnr]
         · simp at ho
 
@@ -397,11 +396,41 @@ def nodeCasesD (n : NodeD) : List CaseD :=
   | none => []
   | some r => routerCasesD r
 
+theorem normRouter_shapeRouter (r : RouterD) : normRouter (shapeRouter r) = normRouter r := by
+  cases r with
+  | switch op cases cats dflt wait rn =>
+    simp only [shapeRouter, normRouter]
+    exact congrArg _ (dropFalsy_dropNull rn)
+  | random cats rn =>
+    simp only [shapeRouter, normRouter]
+    exact congrArg _ (dropFalsy_idem rn)
+
+theorem normNode_shapeNode (n : NodeD) (hv : validNode n = true)
+    (hu : ∀ a ∈ n.actions, untypedAction a = true) : normNode (shapeNode n) = normNode n := by
+  cases n with
+  | mk uuid actions router exits =>
+  simp only [validNode, Bool.and_eq_true, bne_iff_ne, ne_eq, decide_eq_true_eq] at hv
+  obtain ⟨⟨⟨⟨_, hexits⟩, _⟩, hacts⟩, _⟩ := hv
+  have hnacts : (actions.map renderAction).map normAction = actions.map normAction := by
+    rw [List.map_map]
+    apply List.map_congr_left
+    intro a ha
+    exact normAction_renderAction a ((List.all_eq_true.mp hacts) a ha) (hu a ha)
+  have hnexits : (exits.map renderExit).map normExit = exits.map normExit := by
+    rw [List.map_map]
+    apply List.map_congr_left
+    intro e he
+    exact normExit_renderExit e ((List.all_eq_true.mp hexits) e he)
+  simp only [shapeNode, normNode, hnacts, hnexits, Option.map_map]
+  congr 1
+  cases router with
+  | none => rfl
+  | some r => simp [normRouter_shapeRouter]
+
 theorem loadNode_ok (n : NodeD) (hv : validNode n = true) (hx : exitsByCats n = true)
-    (ho : ∀ r, n.router = some r → orderedRouter r = true)
-    (hu : ∀ a ∈ n.actions, untypedAction a = true) :
+    (ho : ∀ r, n.router = some r → orderedRouter r = true) :
     ∃ nc, loadNode n = .ok nc ∧ nc.uuid = n.uuid ∧ nc.actions = n.actions ∧ nc.uiPos = none ∧
-      nodeCasesC nc = nodeCasesD n ∧ normNode (renderNode nc) = normNode n := by
+      nodeCasesC nc = nodeCasesD n ∧ renderNode nc = shapeNode n := by
   cases n with
   | mk uuid actions router exits =>
   simp only [validNode, Bool.and_eq_true, bne_iff_ne, ne_eq, decide_eq_true_eq] at hv
@@ -410,25 +439,14 @@ theorem loadNode_ok (n : NodeD) (hv : validNode n = true) (hx : exitsByCats n = 
     mapE_ok_id exits (fun e he => loadExit_ok e ((List.all_eq_true.mp hexits) e he))
   have hac : mapE loadAction actions = .ok actions :=
     mapE_ok_id actions (fun a ha => loadAction_ok a ((List.all_eq_true.mp hacts) a ha))
-  have hnacts : actions.map (normAction ∘ renderAction) = actions.map normAction := by
-    apply List.map_congr_left
-    intro a ha
-    exact normAction_renderAction a ((List.all_eq_true.mp hacts) a ha) (hu a ha)
-  have hnexits : exits.map (normExit ∘ renderExit) = exits.map normExit := by
-    apply List.map_congr_left
-    intro e he
-    exact normExit_renderExit e ((List.all_eq_true.mp hexits) e he)
-  have hnexits' : (exits.map renderExit).map normExit = exits.map normExit := by
-    rw [List.map_map]; exact hnexits
   cases router with
   | none =>
     simp only [beq_iff_eq] at hrouter
-    match exits, hrouter, hex, hnexits with
-    | [e], _, hex, hnexits =>
+    match exits, hrouter, hex with
+    | [e], _, hex =>
       refine ⟨{ uuid := uuid, actions := actions, router := none, exit := some e, uiPos := none }, ?_, rfl, rfl, rfl, rfl, ?_⟩
       · simp [loadNode, huuid, hex, hac]
-      · simp only [renderNode, normNode, List.map_map, hnacts]
-        simpa using hnexits
+      · simp [renderNode, shapeNode]
   | some r =>
     simp only [exitsByCats, beq_iff_eq] at hx
     have hor := ho r rfl
@@ -437,49 +455,40 @@ theorem loadNode_ok (n : NodeD) (hv : validNode n = true) (hx : exitsByCats n = 
       simp only [Bool.and_eq_true, beq_iff_eq] at hrouter
       obtain ⟨hvr, hnil⟩ := hrouter
       subst hnil
-      obtain ⟨rc, hl, hcats, hnorm, hcases⟩ := loadRouter_ok exits (.random cats rn) hvr hor hnd hx
+      obtain ⟨rc, hl, hcats, hshape, hcases⟩ := loadRouter_ok exits (.random cats rn) hvr hor hnd hx
       refine ⟨{ uuid := uuid, actions := [], router := some rc, exit := none, uiPos := none }, ?_, rfl, rfl, rfl, ?_, ?_⟩
       · simp [loadNode, huuid, hex, hl]
       · simp [nodeCasesC, nodeCasesD, hcases]
-      · simp only [renderNode, normNode, Option.map_map, Option.map_some, List.map_nil]
-        have he : (routerCats rc).map (fun c => renderExit c.exit) = exits.map renderExit := by
+      · have he : (routerCats rc).map (fun c => renderExit c.exit) = exits.map renderExit := by
           rw [hcats]
           have := catImage_exits exits cats hnd hx
           calc List.map (fun c => renderExit c.exit) (List.map (catImage exits) (routerCatsD (.random cats rn)))
               = List.map renderExit (List.map (·.exit) (List.map (catImage exits) cats)) := by simp [routerCatsD]
             _ = List.map renderExit exits := by rw [this]
-        rw [he, hnexits']
-        simp [hnorm]
+        simp only [renderNode, shapeNode, Option.map_some, List.map_nil, he, hshape]
     | switch op cases cats dflt wait rn =>
       simp only [Bool.and_eq_true] at hrouter
       obtain ⟨hvr, hactsShape⟩ := hrouter
-      obtain ⟨rc, hl, hcats, hnorm, hcases⟩ := loadRouter_ok exits (.switch op cases cats dflt wait rn) hvr hor hnd hx
+      obtain ⟨rc, hl, hcats, hshape, hcases⟩ := loadRouter_ok exits (.switch op cases cats dflt wait rn) hvr hor hnd hx
       have he : (routerCats rc).map (fun c => renderExit c.exit) = exits.map renderExit := by
         rw [hcats]
         have := catImage_exits exits cats hnd hx
         calc List.map (fun c => renderExit c.exit) (List.map (catImage exits) (routerCatsD (.switch op cases cats dflt wait rn)))
             = List.map renderExit (List.map (·.exit) (List.map (catImage exits) cats)) := by simp [routerCatsD]
           _ = List.map renderExit exits := by rw [this]
-      match actions, hactsShape, hac, hnacts with
-      | [], _, _, _ =>
+      match actions, hactsShape, hac with
+      | [], _, _ =>
         refine ⟨{ uuid := uuid, actions := [], router := some rc, exit := none, uiPos := none }, ?_, rfl, rfl, rfl, ?_, ?_⟩
         · simp [loadNode, huuid, hex, hl]
         · simp [nodeCasesC, nodeCasesD, hcases]
-        · simp only [renderNode, normNode, Option.map_map, Option.map_some, List.map_nil]
-          rw [he, hnexits']
-          simp [hnorm]
-      | [a], hshape, hac, hnacts =>
+        · simp only [renderNode, shapeNode, Option.map_some, List.map_nil, he, hshape]
+      | [a], hsh0, hac =>
         refine ⟨{ uuid := uuid, actions := [a], router := some rc, exit := none, uiPos := none }, ?_, rfl, rfl, rfl, ?_, ?_⟩
-        · have hsh : routerActionTypes.contains (actionType a) = true := by simpa using hshape
+        · have hsh : routerActionTypes.contains (actionType a) = true := by simpa using hsh0
           simp only [List.contains_eq_mem, decide_eq_true_eq] at hsh
           simp [loadNode, huuid, hex, hl, hsh, hac]
         · simp [nodeCasesC, nodeCasesD, hcases]
-        · simp only [renderNode, normNode, Option.map_map, Option.map_some]
-          rw [he, hnexits']
-          have hnacts' : ([a].map renderAction).map normAction = [a].map normAction := by
-            rw [List.map_map]; exact hnacts
-          rw [hnacts']
-          simp [hnorm]
+        · simp only [renderNode, shapeNode, Option.map_some, he, hshape]
 
 /-! ### the name → uuid dictionary -/
 
@@ -683,10 +692,15 @@ theorem nodeImg_spec (n : NodeD) (h : NodeOk n) :
     loadNode n = .ok (nodeImg n) ∧ (nodeImg n).uuid = n.uuid ∧ (nodeImg n).actions = n.actions ∧
       (nodeImg n).uiPos = none ∧ nodeCasesC (nodeImg n) = nodeCasesD n ∧
       normNode (renderNode (nodeImg n)) = normNode n := by
-  obtain ⟨nc, hl, h1, h2, h3, h4, h5⟩ := loadNode_ok n h.1 h.2.1 h.2.2.1 h.2.2.2
+  obtain ⟨nc, hl, h1, h2, h3, h4, h5⟩ := loadNode_ok n h.1 h.2.1 h.2.2.1
   have : nodeImg n = nc := by simp [nodeImg, okOr, hl]
   rw [this]
-  exact ⟨hl, h1, h2, h3, h4, h5⟩
+  exact ⟨hl, h1, h2, h3, h4, by rw [h5]; exact normNode_shapeNode n h.1 h.2.2.2⟩
+
+theorem nodeImg_shape (n : NodeD) (h : NodeOk n) : renderNode (nodeImg n) = shapeNode n := by
+  obtain ⟨nc, hl, _, _, _, _, h5⟩ := loadNode_ok n h.1 h.2.1 h.2.2.1
+  have : nodeImg n = nc := by simp [nodeImg, okOr, hl]
+  rw [this]; exact h5
 
 def setPos (U : List (Str × Blob × Blob)) (nc : NodeC) : NodeC := { nc with uiPos := lookupPos nc.uuid U }
 
@@ -1006,11 +1020,6 @@ theorem loadCampaign_ok (c : CampaignD) (h : validCampaign c = true) : loadCampa
   rw [if_neg h.1, he]
 
 /-! ### triggers -/
-
-def trigImg (t : TriggerD) : TriggerC :=
-  { type := t.type, keywords := normKeywords t, channel := t.channel,
-    matchType := if falsy (t.matchType.getD jNull) then (if t.type = strK then jMatchF else jNull) else t.matchType.getD jNull,
-    flow := t.flow, groups := t.groups, excludeGroups := t.excludeGroups.getD [] }
 
 theorem isNull_falsy (k : Blob) (h : isNull k = true) : falsy k = true := by
   have : k = jNull := by simpa [isNull] using h
@@ -1349,5 +1358,122 @@ theorem normDoc_outDoc (d : DocD) (hv : Valid d) (hn : ∀ f ∈ d.flows, ∀ n 
     rw [List.map_map, List.map_map]
     exact List.map_congr_left (fun t _ => normTrigger_render t)
   simp only [normDoc, outDoc, h1, h2, h3, h4]
+
+/-! ### the exact shape of the output -/
+
+theorem renderFlow_flowImg (f : FlowD) (hn : ∀ n ∈ f.nodes, NodeOk n) : renderFlow (flowImg f) = shapeFlow f := by
+  have huuid : ∀ n ∈ f.nodes, (nodeImg n).uuid = n.uuid := fun n h => (nodeImg_spec n (hn n h)).2.1
+  have hnodes : (flowImg f).nodes.map renderNode = f.nodes.map shapeNode := by
+    simp only [flowImg, List.map_map]
+    apply List.map_congr_left
+    intro n h
+    simp only [Function.comp, renderNode_setPos]
+    exact nodeImg_shape n (hn n h)
+  have hR : (flowImg f).nodes.filterMap (fun n => n.uiPos.map (fun p => (n.uuid, p))) = uiOf f := by
+    simp only [flowImg, List.filterMap_map, uiOf]
+    apply filterMap_congr'
+    intro n h
+    simp [Function.comp, setPos, huuid n h]
+  simp only [renderFlow, hnodes, hR, shapeFlow]
+  simp [flowImg]
+
+theorem outDoc_eq_shapeDoc (d : DocD) (hn : ∀ f ∈ d.flows, ∀ n ∈ f.nodes, NodeOk n) : outDoc d = shapeDoc d := by
+  have h : (d.flows.map flowImg).map renderFlow = d.flows.map shapeFlow := by
+    rw [List.map_map]
+    exact List.map_congr_left (fun f hf => renderFlow_flowImg f (hn f hf))
+  simp only [outDoc, shapeDoc, h, List.map_map]
+  rfl
+
+/-! ### the shape is a fixed point of shaping -/
+
+theorem renderGroup_idem (g : GroupD) : renderGroup (renderGroup g) = renderGroup g := by
+  have := dropNull_idem
+  simp only [dropNull] at this
+  simp [renderGroup, this]
+
+theorem renderExit_idem (e : ExitD) : renderExit (renderExit e) = renderExit e := by
+  cases e with
+  | mk u dest =>
+    simp only [renderExit, Option.getD_some]
+    by_cases h : dest.getD jNull = jHardExit
+    · simp [h]
+    · simp [h]
+
+theorem filter_truthy_idem (o : Option Blob) : (o.filter truthy).filter truthy = o.filter truthy := dropFalsy_idem o
+
+theorem renderAction_idem (a : ActionD) : renderAction (renderAction a) = renderAction a := by
+  cases a with
+  | sendMsg u t att q au tp tm =>
+    simp only [renderAction, filter_truthy_idem, List.filter_filter, Bool.and_self]
+  | setContactField u n k t v =>
+    have hT : truthy jTypeBuiltin = true := by decide
+    cases hb : fieldTypeBug with
+    | false => simp [renderAction, hb, filter_truthy_idem]
+    | true =>
+      cases t with
+      | none => simp [renderAction, hb]
+      | some b => by_cases h : truthy b = true <;> simp [renderAction, hb, Option.filter, h, hT]
+  | removeGroups u gs ag =>
+    simp only [renderAction, filter_truthy_idem, List.map_map]
+    congr 1
+    exact List.map_congr_left (fun g _ => renderGroup_idem g)
+  | addGroups u gs =>
+    simp only [renderAction, List.map_map]
+    congr 1
+    exact List.map_congr_left (fun g _ => renderGroup_idem g)
+  | setRunResult u n v c => simp only [renderAction, filter_truthy_idem]
+  | _ => rfl
+
+theorem shapeRouter_idem (r : RouterD) : shapeRouter (shapeRouter r) = shapeRouter r := by
+  cases r with
+  | switch op cases cats dflt wait rn =>
+    simp only [shapeRouter]
+    exact congrArg _ (dropNull_idem rn)
+  | random cats rn =>
+    simp only [shapeRouter, filter_truthy_idem]
+
+theorem shapeNode_idem (n : NodeD) : shapeNode (shapeNode n) = shapeNode n := by
+  simp only [shapeNode, List.map_map, Option.map_map]
+  congr 1
+  · exact List.map_congr_left (fun a _ => renderAction_idem a)
+  · cases n.router with
+    | none => rfl
+    | some r => simp [shapeRouter_idem]
+  · exact List.map_congr_left (fun e _ => renderExit_idem e)
+
+theorem shapeNode_uuid (n : NodeD) : (shapeNode n).uuid = n.uuid := rfl
+
+theorem lookup_uiOf (f : FlowD) : ∀ n ∈ f.nodes, lookupPos n.uuid (uiOf f) = lookupPos n.uuid (f.ui.getD []) := by
+  intro n h
+  have := lookupPos_filterMap (f.ui.getD []) n.uuid (f.nodes.map (·.uuid))
+  rw [List.filterMap_map] at this
+  have hm : n.uuid ∈ f.nodes.map (·.uuid) := List.mem_map_of_mem h
+  simp only [hm, if_true] at this
+  exact this
+
+theorem uiOf_shapeFlow (f : FlowD) : uiOf (shapeFlow f) = uiOf f := by
+  have hget : (shapeFlow f).ui.getD [] = uiOf f := by
+    unfold shapeFlow
+    by_cases h : uiOf f = [] <;> simp [h]
+  have hnodes : (shapeFlow f).nodes = f.nodes.map shapeNode := rfl
+  have h1 : uiOf (shapeFlow f) = (shapeFlow f).nodes.filterMap
+      (fun n => (lookupPos n.uuid ((shapeFlow f).ui.getD [])).map (fun p => (n.uuid, p))) := rfl
+  rw [h1, hget, hnodes, List.filterMap_map]
+  have h2 : uiOf f = f.nodes.filterMap (fun n => (lookupPos n.uuid (f.ui.getD [])).map (fun p => (n.uuid, p))) := rfl
+  conv => rhs; rw [h2]
+  apply filterMap_congr'
+  intro n h
+  simp only [Function.comp, shapeNode_uuid]
+  rw [lookup_uiOf f n h]
+
+theorem shapeFlow_idem (f : FlowD) : shapeFlow (shapeFlow f) = shapeFlow f := by
+  have h1 := uiOf_shapeFlow f
+  have h2 : (shapeFlow f).nodes.map shapeNode = f.nodes.map shapeNode := by
+    simp only [shapeFlow, List.map_map]
+    exact List.map_congr_left (fun n _ => shapeNode_idem n)
+  unfold shapeFlow at h2 ⊢
+  simp only [h2]
+  unfold shapeFlow at h1
+  simp only [h1]
 
 end Rpft.Document
